@@ -73,6 +73,7 @@ func verifAppend(tag string) {
 	if err != nil {
 		vapi.Assert(tag+".abort-clean.revision", sameContract(before.fc, after.fc))
 		vapi.Assert(tag+".abort-clean.roots", sameRoots(before.roots, after.roots))
+		vapi.Assert(tag+".abort-clean.no-signature-released", !releasedFinal(conn.out.Bytes(), &proto4.RPCAppendSectorsResponse{}, &proto4.RPCAppendSectorsThirdResponse{}))
 		vapi.Reach("failed")
 		return
 	}
@@ -96,7 +97,8 @@ func VerifH_C09_append() { verifAppend("append") }
 func verifRoots(tag string) {
 	n := vapi.Int("sectors", 1, 4)
 	w := newHostWorld(n)
-	off := uint64(vapi.Int("offset", 0, 5))
+	// the offset is any 64-bit value (the request is untrusted input)
+	off := vapi.U64("offset")
 	length := uint64(vapi.Int("length", 0, 5))
 	req := proto4.RPCSectorRootsRequest{ContractID: w.id, Prices: w.prices, Offset: off, Length: length}
 	badPrices := w.corruptPrices(&req.Prices)
@@ -119,6 +121,7 @@ func verifRoots(tag string) {
 	if err != nil {
 		vapi.Assert(tag+".abort-clean.revision", sameContract(before.fc, after.fc))
 		vapi.Assert(tag+".abort-clean.roots", sameRoots(before.roots, after.roots))
+		vapi.Assert(tag+".abort-clean.no-signature-released", !releasedFinal(conn.out.Bytes(), nil, &proto4.RPCSectorRootsResponse{}))
 		vapi.Reach("failed")
 		return
 	}
@@ -132,7 +135,7 @@ func verifRoots(tag string) {
 	vapi.Assert(tag+".served-signature", resp.HostSignature == after.fc.HostSignature)
 }
 
-//verif:harness prop=C08,C09 tier=quick replay=native require=listed,failed bounds="contract of 1..4 sectors; offset,length 0..5; prices and signature selectors"
+//verif:harness prop=C08,C09 tier=quick replay=native require=listed,failed bounds="contract of 1..4 sectors; offset any 64-bit value, length 0..5; prices and signature selectors"
 func VerifH_C09_roots() { verifRoots("roots") }
 
 // ---- fund accounts -----------------------------------------------------------
@@ -180,6 +183,7 @@ func verifFund(tag string) {
 	w.checkCommit(tag)
 	if err != nil {
 		vapi.Assert(tag+".abort-clean.revision", sameContract(before.fc, after.fc))
+		vapi.Assert(tag+".abort-clean.no-signature-released", !releasedFinal(conn.out.Bytes(), nil, &proto4.RPCFundAccountsResponse{}))
 		for i := range deposits {
 			vapi.Assert(tag+".abort-clean.balances", w.contractor.VerifAccount(deposits[i].Account) == pre[i])
 		}
@@ -309,6 +313,7 @@ func verifReplenishX(tag string, pools, interleave bool) {
 	}
 	if err != nil || sameContract(before.fc, after.fc) {
 		vapi.Assert(tag+".abort-clean.revision", sameContract(before.fc, after.fc))
+		vapi.Assert(tag+".abort-clean.no-signature-released", !releasedFinal(conn.out.Bytes(), &proto4.RPCReplenishAccountsResponse{}, &proto4.RPCReplenishAccountsThirdResponse{}))
 		for i := range accounts {
 			vapi.Assert(tag+".abort-clean.balances", bal(accounts[i]) == pre[i])
 		}
